@@ -16,7 +16,7 @@ func timedName(c timed.Cfg) string {
 	case "unfold":
 		return fmt.Sprintf("unfold cap=%d step=%s gaps=%v cancel-at=%d drain=%v", c.Cap, c.Step, c.ConsGaps, c.CancelAt, c.Drain)
 	}
-	return fmt.Sprintf("throttle ops=%d interval=%d cap=%d k=%d prod-gap=%d gaps=%v cancel-at=%d", c.Ops, c.Interval, c.Cap, c.K, c.ProdGap, c.ConsGaps, c.CancelAt)
+	return fmt.Sprintf("throttle ops=%d interval=%d cap=%d k=%d prod-gap=%d gaps=%v cancel-at=%d%s", c.Ops, c.Interval, c.Cap, c.K, c.ProdGap, c.ConsGaps, c.CancelAt, map[bool]string{true: fmt.Sprintf(" deadline=%d", c.Timeout)}[c.Timeout > 0])
 }
 
 // C11: exact successive sequence, paced (Emit), until cancelled.
@@ -195,6 +195,15 @@ func c11Scenarios(tier string) []e1lib.Scenario {
 				}
 			}
 			add(timed.Cfg{Kind: "emit", Cap: cp, Freq: f, Mode: "lift", Mask: 0b0100, ConsGaps: []int{0, 0, 0, 0}, CancelAt: -1})
+		}
+		// a consumer that stays away for an hour of virtual time at one point: whatever timers the generator may use
+		// internally, a slow consumer only delays the sequence
+		for at := 0; at <= 2; at++ {
+			gaps := []int{0, 0, 0, 0}
+			gaps[at] = 3600e9
+			add(timed.Cfg{Kind: "unfold", Cap: cp, Step: "inc", ConsGaps: gaps, CancelAt: -1})
+			add(timed.Cfg{Kind: "emit", Cap: cp, Freq: 3, Mode: "pure", ConsGaps: gaps, CancelAt: -1})
+			add(timed.Cfg{Kind: "emit", Cap: cp, Freq: 3, Mode: "try", Mask: 0b0101, ConsGaps: gaps, CancelAt: -1})
 		}
 		for _, step := range []string{"inc", "dbl", "const"} {
 			for _, gaps := range gapScripts([]int{0, 2}, maxLen+1) {
